@@ -68,13 +68,44 @@ def scenarios(rng, quick):
         ly, lm = t // 12, t % 12 + 1
         if not (1602 <= ly <= 4090):
             continue
-        ld = rng.choice([1, 15, 28])
+        ld = rng.choice([1, 15, 28, 30, 30])
+        if lm == 2 and ld > 28:
+            ld = 28
         l = ldn(ly, lm, ld)
         unit = "%dmo" % im if im % 12 or rng.random() < 0.5 else "%dy" % (im // 12)
         incs = unit + ("%dd" % idd if idd else "")
-        skip = rng.choice([[], [], [], [6, 7]])
+        skip = rng.choice([[], [], [6, 7], [rng.randrange(1, 8)], sorted(rng.sample(range(1, 8), 2))])
         args = ["%04d-%02d-%02d" % (y, m, d), incs, fmtd(l)] + sum((["-s", WDN[w]] for w in skip), [])
         sc.append(dict(kind="mon", args=args, first=[y, m, d], inc=[im, idd], last=l, skip=skip, cfl=False, wd0=5, dec="date"))
+    # a clamped element (31st -> 30th / end of February) that falls on a skipped weekday, incl. as the last element
+    for y in (1999, 2010, 2011, 2012, 2024, 2100, 3000):
+        for fm, n in ((1, 3), (1, 1), (3, 1), (5, 4), (8, 3), (10, 1)):
+            t = y * 12 + fm - 1 + n
+            ly, lm = t // 12, t % 12 + 1
+            ldd = (datetime.date(ly + (lm == 12), lm % 12 + 1, 1) - datetime.timedelta(days=1)).day
+            wd = datetime.date(ly, lm, ldd).isoweekday()
+            for skip in ([wd], [wd, wd % 7 + 1]):
+                args = ["%04d-%02d-31" % (y, fm), "1mo", "%04d-%02d-%02d" % (ly, lm, ldd)] + sum((["-s", WDN[w]] for w in skip), [])
+                sc.append(dict(kind="mon", args=args, first=[y, fm, 31], inc=[1, 0], last=ldn(ly, lm, ldd), skip=sorted(skip), cfl=False, wd0=5, dec="date"))
+    # month / year increments anchored on LAST (--compute-from-last): the run is the run from LAST with the negated increment
+    # down to FIRST, printed in ascending order -- the model is given exactly that instance and the tool's lines reversed
+    for i in range(max(12, n // 4)):
+        ly, lm = rng.randrange(1702, 3890), rng.randrange(1, 13)
+        ld = rng.choice([28, 29, 30, 31, 31, 30, 15])
+        try:
+            datetime.date(ly, lm, ld)
+        except ValueError:
+            ld = 28 if lm == 2 else 30
+        im = rng.choice([1, 1, 2, 3, 6, 12, 12, 48, 5])
+        steps = rng.randrange(1, 14)
+        t = ly * 12 + lm - 1 - im * steps
+        fy, fm = t // 12, t % 12 + 1
+        if fy < 1602:
+            continue
+        fd = rng.choice([1, 1, 15, 27])
+        unit = "%dmo" % im if im % 12 or rng.random() < 0.5 else "%dy" % (im // 12)
+        args = ["--compute-from-last", "%04d-%02d-%02d" % (fy, fm, fd), unit, "%04d-%02d-%02d" % (ly, lm, ld)]
+        sc.append(dict(kind="mon", args=args, first=[ly, lm, ld], inc=[-im, 0], last=ldn(fy, fm, fd), skip=[], cfl=False, wd0=5, dec="date", rev=True))
     # times of day around the clock
     for i in range(n // 2):
         f = rng.choice([0, 1, 3600, 36000, 43200, 82800, 86399, rng.randrange(86400)])
@@ -86,7 +117,8 @@ def scenarios(rng, quick):
         if (l - f) % 86400 // max(1, abs(inc)) > 2000 and abs(inc) < 60:
             continue
         unit = "%ds" % inc if inc % 60 else ("%dm" % (inc // 60) if inc % 3600 else "%dh" % (inc // 3600))
-        sc.append(dict(kind="tod", args=[hms(f), unit, hms(l)], first=f, inc=inc, last=l, skip=[], cfl=False, wd0=1, dec="time"))
+        cfl = rng.random() < 0.35
+        sc.append(dict(kind="tod", args=(["--compute-from-last"] if cfl else []) + [hms(f), unit, hms(l)], first=f, inc=inc, last=l, skip=[], cfl=cfl, wd0=1, dec="time"))
     # compound time increments (1h30m) crossing midnight
     for f, a, bm, l in [(82800, 1, 30, 14400), (82800, 1, 45, 10800), (7200, -1, -30, 75600), (3600, 2, 15, 3599), (79200, 0, 90, 1800)]:
         inc = a * 3600 + bm * 60
@@ -151,7 +183,7 @@ def main(tier):
                 if lines is None:
                     e.append({"e": "Timeout", "why": rc})
                 else:
-                    for ln in lines:
+                    for ln in (reversed(lines) if sc.get("rev") else lines):
                         e.append({"e": "Emit", "v": decode(sc, ln), "txt": ln})
                     e.append({"e": "Stop", "rc": rc})
                 execs.append(e)
